@@ -85,6 +85,17 @@ CLAIMED['C08'] = ('Gates, Gen_C08',
     'the underlying buffer as the meaning of input[mask].',
     'DESIGN.md 3.2, 4 C08')
 
+CLAIMED['C03'] = ('Units, Gen_C03',
+    'TLA+ decision table of to_rfi argument normalisation + per-channel law selection yielding symbolic laws per column; '
+    'environment actions enumerate container x channel form x shapes of the three settings; each scenario executed and the '
+    'law on each column identified by evaluating the documented formula',
+    'Exhaustive over ~10^5 argument-shape scenarios on five containers (int/double samples with and without gain, int and '
+    'float arrays): refusal vs conversion, the law per column, bit-identical untouched columns and metadata, converted '
+    'ranges, input not mutated, and bitwise equality of batch / every sequential order / every spelling.',
+    'Trusted: TLC, value parser; floating-point identification of a law (rtol 2e-14) - the spec decides WHICH law on WHICH '
+    'column. Quick tier runs all accepted calls and a quarter of the refused ones.',
+    'DESIGN.md 3.2, 4 C03')
+
 NOT_APPLICABLE = {
     'C09': 'continuum numerics only (L-BFGS-B recovery of real parameters, real-analytic identities of closures): no '
            'state, history or case analysis for a TLA+ specification to enumerate; discrete fragment (Fit refuses <3 '
